@@ -767,6 +767,8 @@ def main():
                     c = {"set": c["set"], "ops": c["ops"], "family": "corpus:" + f}
                     cases.append(c)
         cases += systematic()
+        for c in cases:
+            ck.count("family:" + c["family"].split(":")[0])
         ncases, nops = (2000, 25) if ck.tier == "quick" else (30000, 80)
         for c in range(ncases):
             wb = ck.rng.random() < 0.12
@@ -825,7 +827,7 @@ def main():
     for sig, (what, c, upto) in found.items():
         case = {"set": c["set"], "ops": c["ops"][:upto]}
         known = any(__import__("re").fullmatch(k["signature"], sig) for k in ck.known)
-        if not known and budget[0] > 0 and not sig.startswith(("generator-", "unmodelled", "model-")):
+        if not known and budget[0] > 0 and not ck.args.replay and not sig.startswith(("generator-", "unmodelled", "model-")):
             budget[0] -= 1
             case = shrink(rn, case, sig, maxruns=120 if ck.tier == "quick" else 400)
         hb, mb, crashed, _ = rn.run([case])
@@ -833,6 +835,7 @@ def main():
                                  "correspondence": "LPOpsModel.step vs SoPlexBase<double> real modification interface"},
                      no_input=sig.startswith(("generator-", "unmodelled", "model-")))
 
+    ck.cov["families"] = "corpus (minimal histories of recorded findings and renumbering regressions), systematic (every entry point on a fixed 4x4 LP before/after a solve under 4 settings), api (random), api-unloaded (random, starting with optimize() on the empty LP which leaves the real LP outside the solver), whitebox (random with the XU operation that copies the LP out of the solver as _preprocessAndSolveReal does)"
     ck.cov["rule"] = ("histories over 40 operation kinds (add/replace/remove rows and columns in all variants, changes of sides, bounds, "
                       "objective, elements, sense, clearLP, optimize, getBasis/setBasis/clearBasis) drawn from one PRNG under sampled "
                       "scaler x persistent scaling x simplifier x representation x sense; an evaluation is one operation executed on "
@@ -848,7 +851,10 @@ def main():
                       "values at or beyond +-1e100 are compared as 'infinite'",
                       "hasBasis is not predicted (implementation freedom); a basis that is reported must be valid (dimension, number of basic "
                       "variables, statuses compatible with the bounds)",
-                      "solve comparison: same status; objective value within relative 1e-6 (small-integer LPs)",
+                      "solve comparison at every optimize against three solvers constructed from scratch from the reported LP (same settings, "
+                      "default settings, no scaler/simplifier): same status, objective value within relative 1e-6 (small-integer LPs); a "
+                      "difference to all of the same-settings and plain solvers is attributed to the modification history (resolve-*), a "
+                      "difference among the from-scratch solvers themselves to the settings (settings-dependent-*, decided by C01/C02/C08)",
                       "row objectives (no accessor in the real interface) are not observed"]
     ck.finish()
 
